@@ -6,6 +6,7 @@ import (
 	"net/url"
 
 	"github.com/PapaCharlie/go-restli/v2/restli"
+	"github.com/PapaCharlie/go-restli/v2/restlicodec"
 )
 
 const GENERATION = "v2"
@@ -50,3 +51,12 @@ func Build(base *url.URL, root, resourcePath string, query *string, withBody boo
 }
 
 func RootOfPathString(p string) string { return restli.ResourcePathString(p).RootResource() }
+
+// EncodedPath is the resource path the library's own path writer produces for an entity key, the way generated
+// ResourcePath() implementations build it.
+func EncodedPath(root, key string) string {
+	w := restlicodec.NewRor2PathWriter()
+	w.RawPathSegment("/" + root + "/")
+	w.WriteString(key)
+	return w.Finalize()
+}
